@@ -271,7 +271,7 @@ def _sim_overrides():
 
 def _histories(tier):
     L = 3 if tier == "quick" else 4
-    calls = ["run+", "run0", "run-", "batch+", "batch0", "batchlen", "batchint+", "batchint0", "dist+", "dist0", "empty"]
+    calls = ["run+", "run0", "run-", "batch+", "batch0", "batchlen", "batchlen1", "batchlen5", "batchtuple+", "batchint+", "batchint0", "dist+", "dist0", "empty"]
     return lambda: (h for n in range(1, L + 1) for h in itertools.product(calls, repeat=n)
                     if n < 3 or tier != "quick" or (hash(h) % 7 == 0))
 
@@ -302,7 +302,7 @@ def _check_history(h):
             for call in h:
                 nc, nj = r.n_circuits_executed, r.n_jobs_executed
                 ex0 = len(r.executed) if rn == "dummy" else None
-                bad = call.endswith("0") or call.endswith("-") or call == "batchlen"
+                bad = call.endswith("0") or call.endswith("-") or call.startswith("batchlen")
                 circs = [c1, c2, c0]
                 try:
                     if call.startswith("run"):
@@ -313,6 +313,13 @@ def _check_history(h):
                         req = [4, 4, 4]
                     elif call == "batchlen":
                         out = r.run_batch_and_measure(circs, [3, 3])
+                    elif call == "batchlen1":       # a per-circuit list of length ONE for three circuits is a wrong length, not a value to broadcast
+                        out = r.run_batch_and_measure(circs, [5])
+                    elif call == "batchlen5":
+                        out = r.run_batch_and_measure(circs, (2, 2, 2, 2, 2))
+                    elif call == "batchtuple+":
+                        req = [3, 9, 2]
+                        out = r.run_batch_and_measure(circs, (3, 9, 2))
                     elif call.startswith("batch"):
                         req = [3, 9, 2] if call[-1] == "+" else [3, 0, 2]
                         out = r.run_batch_and_measure(circs, req)
@@ -351,6 +358,74 @@ def _check_history(h):
     finally:
         import shutil
         shutil.rmtree(tmp, ignore_errors=True)
+    return True, "ok"
+
+
+def _check_segments(i):
+    """base-class simulators with different native sets on circuits whose first / last / only operations are not native: both counters grow by exactly the number of
+    native segments handed to the simulator (jobs) / (circuits); zero for a circuit without native operations; rejected calls change nothing"""
+    import numpy as np
+    from orquestra.quantum.api.wavefunction_simulator import BaseWavefunctionSimulator
+    from orquestra.quantum.circuits import Circuit, H, X, CNOT, MultiPhaseOperation, GateOperation
+    from orquestra.quantum.wavefunction import Wavefunction
+
+    def make(native):
+        class Sim(BaseWavefunctionSimulator):
+            def __init__(self):
+                super().__init__()
+                self.runs = 0
+
+            def is_natively_supported(self, op):
+                return native(op)
+
+            def _get_wavefunction_from_native_circuit(self, circuit, initial_state):
+                self.runs += 1
+                st = np.array(initial_state, dtype=complex)
+                for op in circuit.operations:
+                    st = np.array(op.apply(st), dtype=complex).ravel()
+                return Wavefunction(st)
+        return Sim()
+    mp = MultiPhaseOperation(tuple(0.1 * (k + 1) for k in range(4)))
+    circuits = [[mp], [mp, H(0), mp], [H(0), mp], [mp, H(0)], [H(0), CNOT(0, 1)], [mp, mp], [H(0), mp, CNOT(0, 1), mp, X(1)], []]
+    natives = {"gates (default)": None, "nothing": lambda op: False, "one-qubit gates": lambda op: isinstance(op, GateOperation) and len(op.qubit_indices) == 1,
+               "phases only": lambda op: isinstance(op, MultiPhaseOperation)}
+    for name, native in natives.items():
+        for ops in circuits:
+            sim = make(native if native is not None else (lambda op: isinstance(op, GateOperation)))
+            if native is None:
+                sim.is_natively_supported = lambda op, s=sim: BaseWavefunctionSimulator.is_natively_supported(s, op)
+            c = Circuit(ops, n_qubits=2)
+            for how in ("wavefunction", "run", "batch", "distribution"):
+                nc, nj, r0 = sim.n_circuits_executed, sim.n_jobs_executed, sim.runs
+                if how == "wavefunction":
+                    sim.get_wavefunction(c)
+                    k = 1
+                elif how == "run":
+                    sim.run_and_measure(c, 3)
+                    k = 1
+                elif how == "batch":
+                    sim.run_batch_and_measure([c, c], [2, 4])
+                    k = 2
+                else:
+                    sim.get_measurement_outcome_distribution(c, 5)
+                    k = 1
+                segs = sim.runs - r0
+                flags = [bool(sim.is_natively_supported(op)) for op in ops]
+                all_segments = k * sum(1 for j, f in enumerate(flags) if j == 0 or f != flags[j - 1])     # maximal runs of equal nativeness, per circuit
+                if segs != k * sum(1 for j, f in enumerate(flags) if f and (j == 0 or not flags[j - 1])):
+                    return False, f"native set '{name}', circuit {c}, {how}: {segs} native segments were handed to the simulator"
+                if sim.n_circuits_executed - nc != segs or sim.n_jobs_executed - nj != all_segments:
+                    return False, f"native set '{name}', circuit {c}, {how}: counters grew by (circuits {sim.n_circuits_executed - nc}, jobs {sim.n_jobs_executed - nj}) " \
+                                  f"but {segs} native segments were run out of {all_segments} segments"
+            nc, nj = sim.n_circuits_executed, sim.n_jobs_executed
+            for bad in (lambda: sim.run_and_measure(c, 0), lambda: sim.run_batch_and_measure([c, c], [3]), lambda: sim.run_batch_and_measure([c, c], [2, -1])):
+                try:
+                    bad()
+                    return False, f"native set '{name}': an invalid request was accepted"
+                except ValueError:
+                    pass
+            if (sim.n_circuits_executed, sim.n_jobs_executed) != (nc, nj):
+                return False, f"native set '{name}': a rejected request changed the counters"
     return True, "ok"
 
 
@@ -449,6 +524,9 @@ def build(tier, seed):
     obs.append(vprop.enum_ob("C14.histories.enum", [C_RUN.key, C_BATCH_SEQ.key, C_DIST.key, C_GETWF.key, C_TR_BATCH.key], _histories(tier), _check_history,
                              "bounded: call histories (valid and invalid single / batch / distribution calls) on a dummy base runner, SymbolicSimulator and a tracker: "
                              "rejections leave counters unchanged, counters never decrease and grow exactly, one result per circuit with >= n shots of register width"))
+    obs.append(vprop.enum_ob("C14.segments.enum", [C_GETWF.key, C_SIM_RUN.key], lambda: [0], _check_segments,
+                             "bounded: base-class simulators with four native sets x eight circuits whose first / last / only operations are not native x four entry points: circuits counter grows "
+                             "by the native segments actually run, jobs counter by the segments processed; rejected requests (zero shots, wrong list length incl. length one, negative entry) change nothing"))
     obs.append(vprop.enum_ob("C14.tracker.enum", [C_TR_RUN.key, C_TR_BATCH.key], lambda: itertools.product([False, True], [False, True]), _check_tracker,
                              "bounded: the tracker returns the wrapped runner's objects and writes records whose counts / shots / circuit match them"))
     return obs
